@@ -6,6 +6,15 @@ MC    MC_ECDSA: on tiny prime-order curves, for every key d, digest value z, and
 C->S  Trace_ECDSA: the library's Public_key.verifies / Private_key.sign / SigningKey.sign_digest /
       VerifyingKey.verify_digest on the same tiny curves (built with the library's CurveFp / PointJacobi / Curve),
       all (d, z, r, s) in the thorough tier; TLC computes the expected verdict / signature of every call.
+      Range boundaries: the model curve T13r (y^2=x^3+7x+6 over F_13, n = 11) has points with x = n-1 and x = 1, so
+      VALID signatures with r = n-1, r = 1, s = 1, s = n-1 occur and are judged (TLC prints which boundary values are
+      reached on each model curve; the check refuses to run vacuously if r = n-1 is reached on none).  On the shipped
+      curves r = n-1 cannot be produced by signing (it needs a point with x = n-1 and a crafted key), so that boundary
+      rests on the model curves.
+      Error paths: the first sign / verifies on fresh curve objects is interrupted (a private BaseException raised from a
+      sys.settrace line event, every position inside PointJacobi._maybe_precompute), then ordinary calls on the same
+      objects are judged as usual; on real curves an interrupted key generation on a fresh Curve object, then key
+      generation + sign_deterministic + verification judged by OpenSSL / the independent RFC 6979.
       Trace_ECOracle: the 17 shipped curves x SHA-1..SHA-512 x encodings: library signs -> OpenSSL verifies,
       OpenSSL signs -> library verifies, every tampered message / signature / key judged by both, out-of-range and
       malformed signatures, and RFC 6979 signatures rebuilt from an independent nonce generator + OpenSSL's k*G."""
@@ -99,13 +108,29 @@ class TinySig:
             self._pk[(d, via)] = pk
         return self._pk[(d, via)]
 
+    def fresh_interrupted(self, op, d, via):
+        """Error-path history (via = "<jac|precomp>-int:<N>"): a key object on FRESH curve objects (generator with its lazy
+        multiplication table not built yet); the first sign / verifies call is interrupted at the N-th line event inside
+        PointJacobi._maybe_precompute and the exception swallowed.  Returns the key object for the later, judged calls."""
+        kind, N = via.split("-int:")
+        c, G, cv = eclib.tiny_curve(self.name)
+        Qa = self.Point(c, self.gx, self.gy, self.n) * d
+        Q = self.PointJacobi(c, Qa.x(), Qa.y(), 1, self.n, generator=True) if kind == "precomp" else self.PointJacobi.from_affine(Qa)
+        pk = self.ecdsa.Public_key(G, Q)
+        if op == "sign":
+            first = lambda: self.ecdsa.Private_key(pk, d).sign(1, 1)
+        else:
+            first = lambda: pk.verifies(1, self.ecdsa.Signature(1, 1))
+        self.last_interrupt = eclib.interrupted(eclib.precompute_code(), int(N), first)
+        return pk
+
     def run(self, op, via="", d=1, z=0, k=0, r=0, dig=(), out=()):
         """-> the fields of the event that the call determines"""
         n = self.n
         Signature = self.ecdsa.Signature
         if op == "verrow":
             try:
-                pk = self.pubkey(d, via)
+                pk = self.fresh_interrupted(op, d, via) if "-int:" in via else self.pubkey(d, via)
             except Exception as e:            # building Q = d*G / the key object failed: every verdict of the row is "raised"
                 return {"out": [2] * (2 * n + 1), "exc": "key:" + type(e).__name__}
             row, excs = [], set()
@@ -118,7 +143,7 @@ class TinySig:
             return {"out": row, "exc": ",".join(sorted(excs))}
         try:
             if op == "sign":
-                sg = self.ecdsa.Private_key(self.pubkey(d, via), d).sign(z, k)
+                sg = self.ecdsa.Private_key(self.fresh_interrupted(op, d, via) if "-int:" in via else self.pubkey(d, via), d).sign(z, k)
                 return {"out": [int(sg.r), int(sg.s)], "exc": "ok"}
             if op == "signdig":
                 sk = self.keys.SigningKey.from_secret_exponent(d, self.cv)
@@ -183,6 +208,21 @@ def _record_tiny(args):
         for dig in digs[:256:8] + digs[256:]:
             for rr, ss in [(0, 1), (1, 0), (n, 1), (1, n), (n + 1, n - 1), (255, 255), (r.randrange(1, n), r.randrange(1, n))]:
                 do("verdig", d=d, dig=dig, out=[rr, ss])
+        if allvias:
+            # error path: first sign / verifies interrupted inside the lazy table set-up of the generator (every line-event
+            # position, and one beyond), then ordinary calls on the same objects, judged as usual
+            code = eclib.precompute_code()
+            T.fresh_interrupted("sign", d, "jac-int:0")
+            tot_s = T.last_interrupt[1]
+            for N in range(1, tot_s + 2):
+                for k in range(1, n):
+                    do("sign", via="jac-int:%d" % N, d=d, z=3, k=k)
+            for kind in ("precomp", "jac"):
+                T.fresh_interrupted("verrow", d, kind + "-int:0")
+                tot_v = T.last_interrupt[1]
+                for N in range(1, tot_v + 2):
+                    for rr in (range(1, n) if kind == "precomp" else (1, n - 1, r.randrange(2, n - 1))):
+                        do("verrow", via="%s-int:%d" % (kind, N), d=d, z=1, r=rr)
     return name, part, rec
 
 
@@ -458,6 +498,40 @@ def _oracle_history(args):
                 ev("flags", tag + "sign raised " + eclib.mro(e), [0], [], type(e).__name__)
             ver.append((ev("accept", tag + "OpenSSL signs -> library (key loaded from DER) and OpenSSL verify", "accept", None), hname, cv,
                         osig[(cv.name, hname)], "load", H, util.sigdecode_der))
+    # ---- error path on real curves: FRESH Curve objects (the table of their generator is not built yet); key generation
+    #      d*G is interrupted inside PointJacobi._maybe_precompute (sampled line positions), the exception swallowed; then
+    #      key generation, sign_deterministic and sign on the same Curve object, judged as above
+    from register_crypto_plugin.ecdsa.curves import Curve
+    from register_crypto_plugin.ecdsa.ellipticcurve import PointJacobi
+    code = eclib.precompute_code()
+    for cv0 in [c for c in cvs if c.name in (("NIST256p", "SECP112r2", "BRAINPOOLP384r1", "SECP256k1", "NIST521p") if thorough else ("NIST256p", "SECP112r2", "BRAINPOOLP192r1"))]:
+        def fresh_curve():
+            g = cv0.generator
+            return Curve(cv0.name, cv0.curve, PointJacobi(cv0.curve, int(g.x()), int(g.y()), 1, int(cv0.order), generator=True), cv0.oid, cv0.openssl_name)
+        total = eclib.interrupted(code, 0, lambda: keys.SigningKey.from_secret_exponent(d, fresh_curve()))[1]
+        for N in sorted({2, total // 2, total - 3} | {r.randrange(5, total) for _ in range(5 if thorough else 2)}):
+            fc = fresh_curve()
+            hit = eclib.interrupted(code, N, lambda: keys.SigningKey.from_secret_exponent(d, fc))
+            n, L = int(fc.order), blen(fc)
+            hname = hashes[0]
+            H = getattr(hashlib, hname)
+            tag = "%s %s d=%d msg=%s after a key generation interrupted at line event %d of %d in _maybe_precompute (%s): " % (
+                fc.name, hname, d, msg.hex(), N, total, "interrupted" if hit[0] else "not interrupted")
+            try:
+                sk = keys.SigningKey.from_secret_exponent(d, fc)
+                vk = sk.verifying_key
+                evs_pub = list(vk.to_string("uncompressed"))
+                rl, sl = sk.sign_deterministic(msg, hashfunc=H, sigencode=lambda r_, s_, o_: (r_, s_))
+                lib, cls = list(int(rl).to_bytes(L, "big") + int(sl).to_bytes(L, "big")), ""
+                dsig = eclib.der_sig(int(rl), int(sl))
+            except Exception as e:
+                lib, cls, dsig, vk, evs_pub = [255], type(e).__name__, None, None, [255]
+            ev("eq", tag + "public key = OpenSSL's d*G", evs_pub, list(b"\x04" + eclib.ossl_pub_raw(cv0, d)[0]), cls, ctx="keygen")
+            h1 = H(msg).digest()
+            k = rfc6979_k(n, d, hname, h1)
+            det.append((ev("eq", tag + "sign_deterministic = independent RFC 6979 nonce k=%d + OpenSSL k*G" % k, lib, None, cls, ctx="rfc6979"), cv0, k, h1))
+            if dsig is not None:
+                ver.append((ev("accept", tag + "sign_deterministic -> library (key loaded from DER) and OpenSSL verify", "accept", None), hname, cv0, dsig, "load", H, util.sigdecode_der))
     # library verdicts in the same sequence, then the OpenSSL answers
     for e, hname, cv, sig, vk, H, dec in ver:
         try:
@@ -495,7 +569,7 @@ def run(tier):
     ossl_version = eclib.require_openssl()
     _rfc6979_selfcheck()
     thorough = tier == "thorough"
-    curves = ["T17", "T13"] + (["T11", "T23"] if thorough else [])
+    curves = ["T17", "T13", "T13r"] + (["T11", "T23"] if thorough else [])
     r = rng("c18")
     with Scratch("c18") as wd:
         ctx = mp.get_context("fork")
@@ -503,7 +577,7 @@ def run(tier):
         tjobs = []
         for nm in curves:
             n = TINY[nm][5]
-            ds = list(range(1, n)) if thorough else sorted({1, n - 1, r.randrange(2, n - 1)})
+            ds = list(range(1, n)) if (thorough or nm == "T13r") else sorted({1, n - 1, r.randrange(2, n - 1)})
             for i, dd in enumerate(ds):
                 tjobs.append((nm, tier, [dd], "d%d" % dd, thorough or i == 1))
         tiny_async = pool.map_async(_record_tiny, tjobs, chunksize=1)
@@ -514,14 +588,23 @@ def run(tier):
         # ---------------------------------------------------------------- MC while the recorders run
         def mc(job):
             nm, invs, tag = job
-            return job, tlc.run(os.path.join(SPEC, "MC_ECDSA.tla"), _mc_cfg(nm, invs), os.path.join(wd, "mc_%s_%s" % (nm, tag)),
-                                workers=4 if nm != "T13" else 1, timeout=1200)
-        jobs = [(nm, MC_INV, "ax") for nm in curves] + [("T17", ["BadExactAccept"], "st")]
+            return job, tlc.run(os.path.join(SPEC, "MC_ECGroup.tla" if tag == "grp" else "MC_ECDSA.tla"), _mc_cfg(nm, invs),
+                                os.path.join(wd, "mc_%s_%s" % (nm, tag)), workers=4 if TINY[nm][5] > 11 else 1, timeout=1200)
+        # T13r is used by C18 only: its constants (group order, generator) and the group law on it are checked here
+        jobs = [(nm, MC_INV, "ax") for nm in curves] + [("T17", ["BadExactAccept"], "st"),
+                                                        ("T13r", "Closure Commut Ident Inverse Assoc MulIsRep OrderDiv PrimeOrder".split(), "grp")]
+        boundary = {}
         with cf.ThreadPoolExecutor(max_workers=len(jobs)) as ex:
             for (nm, invs, tag), res in ex.map(mc, jobs):
-                if tag == "ax":
+                if tag == "grp":
+                    tlc.require_ok(res, "MC_ECGroup " + nm)
+                    rep.add_mc("MC_ECGroup %s (constants of the model curve used only here, group axioms)" % nm, res, dict(zip("P A B GX GY N H".split(), TINY[nm])))
+                elif tag == "ax":
                     tlc.require_ok(res, "MC_ECDSA " + nm)
                     p, a, b, gx, gy, n, h = TINY[nm]
+                    for v in res.printed:
+                        if isinstance(v, tuple) and v and v[0] == "BOUNDARY":
+                            boundary[nm] = {"r=1": v[1], "r=n-1": v[2], "s=1": v[3], "s=n-1": v[4]}
                     rep.add_mc("MC_ECDSA %s: y^2=x^3+%dx+%d over F_%d, n=%d (%s)" % (nm, a, b, p, n, ", ".join(invs)), res,
                                {"P": p, "A": a, "B": b, "G": [gx, gy], "N": n,
                                 "states": "d in 1..N-1, z in 0..N+1 and 2^QLen-1, phase; r, s in 0..2N and k in 1..N-1 quantified inside the invariants"})
@@ -543,13 +626,22 @@ def run(tier):
                 e["tid"] = len(lst) + 1
                 lst.append(e)
         canaries = {}
+        selftest = []          # failed self-tests: MachineryError only if the run is otherwise clean (a deviating library may spoil a canary)
         for nm, evs in tiny.items():
-            base = next(e for e in evs if e["op"] == "verrow" and 1 in e["out"])
-            cz = dict(base); cz["tid"] = len(evs) + 1
-            cz["out"] = list(base["out"]); j = cz["out"].index(1); cz["out"][j] = 0
+            base = next((e for e in evs if e["op"] == "verrow" and 1 in e["out"]), None)
+            if base is not None:
+                cz = dict(base); cz["tid"] = len(evs) + 1
+                cz["out"] = list(base["out"]); j = cz["out"].index(1); cz["out"][j] = 0
+            else:                                   # a deviating library accepted nothing: corrupt a verdict into "raised"
+                base = next(e for e in evs if e["op"] == "verrow")
+                cz = dict(base); cz["tid"] = len(evs) + 1; cz["out"] = [2] + list(base["out"][1:])
             evs.append(cz)
-            base = next(e for e in evs if e["op"] == "sign" and e["exc"] == "ok")
-            cz2 = dict(base); cz2["tid"] = len(evs) + 1; cz2["out"] = [base["out"][0], base["out"][1] % (TINY[nm][5] - 1) + 1]
+            base = next((e for e in evs if e["op"] == "sign" and e["exc"] == "ok"), None)
+            if base is not None:
+                cz2 = dict(base); cz2["tid"] = len(evs) + 1; cz2["out"] = [base["out"][0], base["out"][1] % (TINY[nm][5] - 1) + 1]
+            else:
+                base = next(e for e in evs if e["op"] == "sign")
+                cz2 = dict(base); cz2["tid"] = len(evs) + 1; cz2["exc"] = "ok"; cz2["out"] = [0, 0]
             evs.append(cz2)
             canaries[nm] = {cz["tid"], cz2["tid"]}
             for e in evs:
@@ -568,7 +660,8 @@ def run(tier):
                           (lambda e: e["op"] == "eq" and e["lib"] == e["ref"], lambda e: e.update(lib=e["lib"][:-1] + [e["lib"][-1] ^ 1]))):
             base = next((e for e in oevs if pick(e)), None)
             if base is None:
-                raise MachineryError("no event available for the binding self-test of Trace_ECOracle")
+                selftest.append("no event available for one binding self-test of Trace_ECOracle")
+                continue
             cz = {k: (list(v) if isinstance(v, list) else v) for k, v in base.items() if not k.startswith("_")}
             cz["tid"] = len(oevs) + 1
             cz["what"] = "CANARY " + cz["what"]
@@ -588,7 +681,7 @@ def run(tier):
             byid = {e["tid"]: e for e in evs}
             ids = {x[1] for x in rej}
             if not canaries[nm] <= ids:
-                raise MachineryError("binding self-test: corrupted verdict / signature on %s was accepted by Trace_ECDSA" % nm)
+                selftest.append("binding self-test: corrupted verdict / signature on %s was accepted by Trace_ECDSA" % nm)
             T = None
             for x in rej:
                 if x[1] in canaries[nm]:
@@ -633,7 +726,7 @@ def run(tier):
         rej, st = results["oracle"]
         ids = {x[1] for x in rej}
         if not ocan <= ids:
-            raise MachineryError("binding self-test: a corrupted oracle event was accepted by Trace_ECOracle (%s)" % sorted(ocan - ids))
+            selftest.append("binding self-test: a corrupted oracle event was accepted by Trace_ECOracle (%s)" % sorted(ocan - ids))
         byid = {e["tid"]: e for e in oevs}
         for x in rej:
             if x[1] in ocan:
@@ -643,7 +736,7 @@ def run(tier):
             rep.violation("C18:" + key, "%s: %s (library %r %s / OpenSSL %r)" % (x[2], e["what"], _short(e["lib"]), e["cls"], _short(e["ref"])),
                           {k: v for k, v in e.items()})
         oops = {}
-        for e in oevs[:-len(ocan)]:
+        for e in oevs[:len(oevs) - len(ocan)]:
             oops[e["op"]] = oops.get(e["op"], 0) + 1
         rep.add_trace("Trace_ECOracle (17 shipped curves x SHA-1..SHA-512: library vs OpenSSL verdicts, RFC 6979 (r, s))", st, len(oevs) - len(ocan),
                       spec_computed=False, extra={"events_by_relation": oops, "openssl_calls": ncalls, "openssl": ossl_version,
@@ -654,6 +747,11 @@ def run(tier):
         rep.sample(next(e for e in t0 if e["op"] == "verdig"))
         for op in ("accept", "verdict", "eq"):
             rep.sample({k: v for k, v in next(e for e in oevs if e["op"] == op).items() if not k.startswith("_")}, limit=8)
+    rep.cov["boundary_values_reached_in_valid_signatures"] = boundary          # computed by TLC (MC_ECDSA, BOUNDARY)
+    if not any(b.get("r=n-1") for b in boundary.values()):
+        selftest.append("non-vacuity: no model curve produces a valid signature with r = n-1 (%r)" % (boundary,))
+    if selftest and not rep.violations:
+        raise MachineryError("; ".join(selftest))
     rep.cov["exhaustive"] = thorough
     rep.cov["explanation"] = ("accept set of Verify exhausted by TLC on each tiny curve; the library's verifies/sign driven on " +
                               ("all" if thorough else "three keys d x all") + " (z, r, s) with r, s in 0..2n; shipped curves sampled against OpenSSL"
@@ -676,6 +774,6 @@ def _short(v):
 
 def _violation(rep, nm, e, x, key):
     if key is None:
-        key = "%s:%s:%s" % (x[2], e["op"], e["via"])
+        key = "%s:%s:%s" % (x[2], e["op"], e["via"].split(":")[0])
     rep.violation("C18:" + key, "%s %s via %s d=%d z=%d k=%d r=%d dig=%s -> library %s %s; specification: %s %s" % (
         nm, e["op"], e["via"], e["d"], e["z"], e["k"], e["r"], e["dig"], e["out"], e["exc"], x[2], x[3]), dict(e, curve=nm, params=TINY[nm]))
